@@ -384,7 +384,7 @@ def _worker_main():
         except RecursionError:
             obs = err(E["Recursion"])
         except Exception as e:  # harness-level failure is reported as an observation too
-            obs = [2, exc_code(e), s2v(repr(e)[:200])]
+            obs = {"harness_error": repr(e)[:300]}
         real_stdout.write(json.dumps([idx, obs], separators=(",", ":")) + "\n")
         real_stdout.flush()
 
@@ -582,7 +582,7 @@ def run_check(prop, tier, seed, scratch, t0, n_override=None):
     concrete = []
     harness_err = []
     for c, m, i in zip(cases, mres, ires):
-        if isinstance(i, list) and len(i) == 3 and i[0] == 2:
+        if isinstance(i, dict):
             harness_err.append((c, m, i))
         k = classify(prop, c, m, i)
         if k == "violation":
@@ -683,7 +683,7 @@ def run_check(prop, tier, seed, scratch, t0, n_override=None):
         n_viol += 1
     if harness_err and exit_code == 0:
         c, m, i = harness_err[0]
-        sys.stderr.write("harness error on case %s: %s\n" % (dumps(c)[:300], v2s(i[2])))
+        sys.stderr.write("harness error on case %s: %s\n" % (dumps(c)[:300], i.get("harness_error")))
 
     samples = []
     for j in (0, len(cases) // 2, len(cases) - 1):
